@@ -267,24 +267,21 @@ example : ConstantToEnum.plainTargets ConstantToEnum.wP
   decide
 
 /-! ## fields_set_default -/
-def C15_fields_set_default_full : Prop := FieldsSetDefault.full
-theorem C15_fields_set_default_counterexample : ¬ C15_fields_set_default_full := FieldsSetDefault.counterexample
-/-- hypothesis: no field is accepted by two entries; then the outcome does not depend on the
-    order in which Go's map iteration delivers the entries -/
-theorem C15_fields_set_default_order_independent_partial (p p' : FieldsSetDefault.Params) (S : Schemas)
-    (hp : p'.defaults.Perm p.defaults) (hu : FieldsSetDefault.unambiguous p S = true) :
-    FieldsSetDefault.run p' S = FieldsSetDefault.run p S := FieldsSetDefault.order_independent_partial p p' S hp hu
-/-- for any one iteration order: the result is the object-wise application of that order -/
 theorem C15_fields_set_default_correct (p : FieldsSetDefault.Params) (S S' : Schemas) (hw : WF S)
-    (h : FieldsSetDefault.run p S = .ok S') : S' = mapObjs (FieldsSetDefault.onObj p) S := FieldsSetDefault.model p S S' hw h
+    (h : FieldsSetDefault.run p S = .ok S') : S' = FieldsSetDefault.spec p S := FieldsSetDefault.correct p S S' hw h
 theorem C15_fields_set_default_frame (p : FieldsSetDefault.Params) (S S' : Schemas) (hw : WF S)
     (h : FieldsSetDefault.run p S = .ok S') : FrameOK (FieldsSetDefault.targets p) (fun _ => false) S S' :=
   FieldsSetDefault.frame p S S' hw h
 theorem C15_fields_set_default_absent (p : FieldsSetDefault.Params) (S S' : Schemas) (hw : WF S)
     (hn : NoTarget (FieldsSetDefault.targets p) S) (h : FieldsSetDefault.run p S = .ok S') : S' = S :=
   FieldsSetDefault.absent p S S' hw hn h
-example : FieldsSetDefault.unambiguous { defaults := [(⟨"p", "A", "a"⟩, .str "x")] } FieldsSetDefault.wSchemas = true := by
-  decide
+/-- `defaults` is a Go map (distinct keys, no order): the outcome does not depend on the order in
+    which the map iteration delivers the entries (the pass sorts them; fixed in /repo by 55a988e,
+    before that two keys differing in letter case made the result depend on it) -/
+theorem C15_fields_set_default_order_independent (p p' : FieldsSetDefault.Params) (S : Schemas)
+    (hp : p'.defaults.Perm p.defaults) (hk : (p.defaults.map (·.1)).Nodup) :
+    FieldsSetDefault.run p' S = FieldsSetDefault.run p S := FieldsSetDefault.order_independent p p' S hp hk
+example : (FieldsSetDefault.wP.defaults.map (·.1)).Nodup := by decide
 
 /-! ## hint_object -/
 theorem C15_hint_object_correct (p : HintObject.Params) (S S' : Schemas) (hw : WF S)
@@ -298,6 +295,10 @@ theorem C15_hint_object_absent (p : HintObject.Params) (S S' : Schemas) (hw : WF
 /-- the transformation is also documented to WORK; it panics on a nil `Hints` map -/
 def C15_hint_object_total_full : Prop := HintObject.total_full
 theorem C15_hint_object_counterexample : ¬ C15_hint_object_total_full := HintObject.counterexample
+/-- the nil map is reachable through the public API (YAML `as:` then `hint_object`) -/
+theorem C15_hint_object_counterexample_reachable :
+    HintObject.isPanic (process [.retypeObject HintObject.wRetype, .hintObject HintObject.wP] HintObject.wS0) = true :=
+  HintObject.counterexample_reachable
 theorem C15_hint_object_total_partial (p : HintObject.Params) (S : Schemas) (hep : HintObject.EPWalkable S)
     (hn : HintObject.noNilTarget p S = true) : ∃ S', HintObject.run p S = .ok S' := HintObject.total_partial p S hep hn
 example : HintObject.noNilTarget HintObject.wP
